@@ -1153,10 +1153,20 @@ func matchRefObs(d bson.D, f bson.D) (real, ref, cls string) {
 	return
 }
 
-// signature of a disagreement inside `core`: the two repaired classes are
-// recognised by the shape of the filter (their signatures are recorded as
+// signature of a disagreement inside `core`: the repaired classes are
+// recognised by the shape of the pair (their signatures are recorded as
 // fixed, so they suppress nothing), everything else is a plain disagreement
-func coreDisagreementSignature(f bson.D) string {
+func coreDisagreementSignature(d bson.D, f bson.D) string {
+	// the repaired fan-out classes: the pair lay outside the old core
+	if !refCoreGen(refFlags{oldTypeArray: true}, d, f) {
+		return "C10:type-array-under-fanout"
+	}
+	if !refCoreGen(refFlags{oldExists: true}, d, f) {
+		return "C10:exists-under-fanout-empty-array"
+	}
+	if !refCoreGen(refFlags{oldSize: true}, d, f) {
+		return "C10:size-under-fanout"
+	}
 	if anyEntry(f, func(k string, x interface{}) bool {
 		if k != "$type" {
 			return false
@@ -1193,7 +1203,7 @@ func matchRefVerdict(d bson.D, f bson.D) (sig, detail string) {
 	}
 	sig = cls
 	if cls == "core" {
-		sig = coreDisagreementSignature(f)
+		sig = coreDisagreementSignature(d, f)
 	}
 	return sig, "real=" + real + " reference=" + ref
 }
@@ -1293,7 +1303,7 @@ func oracleC10Reference(r *rng, n int, st *oracleStats) []oracleFailure {
 		st.Dist[cls+":differs"]++
 		sig := cls
 		if cls == "core" {
-			sig = coreDisagreementSignature(f)
+			sig = coreDisagreementSignature(d, f)
 		}
 		perSig[sig]++
 		if perSig[sig] <= 3 {
